@@ -20,7 +20,7 @@ def run(ctx):
         tp = os.path.join(ctx.scratch, 'transcript-%s.txt' % mode)
         env = {'VERIF_C19_LOG': mode, 'VERIF_C19_TRANSCRIPT': tp, 'VERIF_C19_SCEN': nscen}
         env.update(extra)
-        ch = ctx.child(b, run='TestC19', timeout=1800, env=env, label=mode)
+        ch = ctx.child(b, run='TestC19', timeout=300 if not ctx.thorough else 1800, env=env, label=mode)
         if ch.rc != 0 or ch.report is None:
             ctx.absorb(ch, crash_key='C19/crash-with-logging-' + mode, what='TestC19[%s]' % mode)
             continue
